@@ -78,10 +78,10 @@ func destForms() []destForm {
 func responders(e *simEnv, ttl int) map[string]netip.Addr {
 	v6 := e.spec.V.V6
 	return map[string]netip.Addr{
-		"target":        e.spec.Target,
+		"target":         e.spec.Target,
 		"on-path-router": routerAddr(v6, 1, ttl),
-		"off-path-host": uniqueAddr(v6, 7000+ttl),
-		"local-address": e.local,
+		"off-path-host":  uniqueAddr(v6, 7000+ttl),
+		"local-address":  e.local,
 	}
 }
 
@@ -199,7 +199,9 @@ func delayPlans(budget time.Duration) []delayPlan {
 		{"sub-ms", func(i, n int) (time.Duration, []time.Duration) { return time.Duration(37+i) * time.Microsecond, nil }},
 		{"multi-delay", func(i, n int) (time.Duration, []time.Duration) { return time.Duration(260+251*i) * ms, nil }},
 		// the reply leaves its own (serial) window and is read while a later probe is outstanding
-		{"window-crossing", func(i, n int) (time.Duration, []time.Duration) { return budget + 250*ms + 150*ms + time.Duration(7*i)*ms, nil }},
+		{"window-crossing", func(i, n int) (time.Duration, []time.Duration) {
+			return budget + 250*ms + 150*ms + time.Duration(7*i)*ms, nil
+		}},
 	}
 }
 
